@@ -241,6 +241,8 @@ func runC20(e *emitter, tier string, seed uint64) {
 		"<html><head><title>t</title></head><frameset><frame></frameset></html>", "<html><head><title>body</title></head><body><p>x</p></body></html>",
 		"<!--body--><html><head><script>body</script></head><body>y</body></html>", "<!DOCTYPE body><html><body>z</body></html>", "<html><body>body</body></html>", "<body a=\"1\">x</body><body b=\"2\">y</body>", "<html><body><table><tr><td>1<td>2</table>",
 		"<html><body>&amp;&lt;&nbsp;&copy;</body></html>", "<svg><body></body></svg>", "<html><body><template><body></body></template></body></html>", "\xff\xfe<body>", "<html><body>a\r\nb\rc</body></html>",
+		"<html><head><title>T</title><noscript><img src=\"/pixel.gif\" width=\"1\" height=\"1\"></noscript><link rel=\"stylesheet\" href=\"/s.css\"></head><body><p>x</p></body></html>",
+		"<html><head><noscript><link rel=\"stylesheet\" href=\"/n.css\"><style>p{}</style></noscript><title>T</title></head><body><noscript><p>enable scripts</p></noscript></body></html>",
 		"<html><body><textarea></body></textarea></body></html>", strings.Repeat("<div>x</div>", 2000), "<html><body>" + strings.Repeat("y", 300000) + "</body></html>",
 	}
 	if tier == "thorough" {
@@ -430,7 +432,7 @@ func runC20(e *emitter, tier string, seed uint64) {
 		}
 		doc := sb.String()
 		if r.chance(1, 3) {
-			doc = r.pick(docs[:16])
+			doc = r.pick(docs[:18])
 		}
 		run(mk(r.pick(skips[:3]), r.pick(cts), r.pick(encs), r.pick(csps), r.chance(1, 6), doc, r.chance(1, 40)))
 	}
